@@ -99,7 +99,7 @@ def run(tier, seed):
             if z['zoneId'] != djb2(n): rep.violation('c11:id-not-djb2', {'db': db, 'zone': n, 'id': z['zoneId'], 'djb2': djb2(n)})
             if consts.get(n) != z['zoneId']: rep.violation('c11:kZoneId-constant-differs', {'db': db, 'zone': n, 'constant': consts.get(n), 'id': z['zoneId']})
             if n in baseline and baseline[n] != z['zoneId']: rep.violation('c11:id-differs-from-baseline', {'db': db, 'zone': n, 'baseline': baseline[n], 'id': z['zoneId']})
-            if n not in baseline: rep.violation('c11:zone-missing-from-baseline', {'db': db, 'zone': n})
+            if n not in baseline: rep.coverage['zones_without_baseline_entry(new names)'] = rep.coverage.get('zones_without_baseline_entry(new names)', 0) + 1
             byname[n] = z
         idset = {}
         for z in zones:
